@@ -10,7 +10,7 @@ LEVEL = "exploration"
 RULE = (
     "case = history of 1..12 full handshakes on the simulated network; each step connects to a host (inside / outside / "
     "look-alike / subdomain of previously named domains, mixed case) whose response carries 0..2 Set-Cookie lines with "
-    "one Domain (with/without leading dot, upper/lower case) or none, plus an optional caller cookie. The process-wide "
+    "one Domain (with/without leading dot, upper/lower case) or none, plus an optional caller cookie and an optional Host header override (host= option). The process-wide "
     "jar is cleared at the start of each history. Non-trivial: history with >= 2 cookie-setting responses and a "
     "look-alike host, a mixed-case domain or an overwritten value. Distinct = the history."
 )
@@ -81,6 +81,8 @@ def run_case(case):
         kw = {}
         if stp.get("cookie"):
             kw["cookie"] = stp["cookie"]
+        if stp.get("host_opt"):
+            kw["host"] = stp["host_opt"]  # overrides the Host header only; cookies follow the host actually connected to
         with net.installed():
             try:
                 ws = websocket.WebSocket()
@@ -141,6 +143,7 @@ step = st.fixed_dictionaries(
         "domain_on": st.sampled_from(["first", "all"]),
         "cookie": st.sampled_from(["mine=1", "x=y; w=z"]),
         "path": st.booleans(),
+        "host_opt": st.sampled_from(["example.com", "sub.example.com", "other.test", "evil.test"]),
     },
 )
 cases = st.fixed_dictionaries({"steps": st.lists(step, min_size=1, max_size=12)})
